@@ -851,14 +851,24 @@ package graphql
 //@ func getVariableValues
 //@   props C05
 //@   nosafety
+//@   assigns nothing
+//@   loop 1 invariant fresh(values)
 //@   at call getVariableValue: assert arg0 == schema && arg1 == defAST && arg2 == inputs[defAST.Variable.Name.Value]
 //@   loop 1 ensures calls("getVariableValue") == atloop(1, calls("getVariableValue")) + 1 ==> lastresult("getVariableValue", 1) == nil && has(values, defAST.Variable.Name.Value) && values[defAST.Variable.Name.Value] == lastresult("getVariableValue")
 //@   at return: assert calls("getVariableValue") > 0 && lastresult("getVariableValue", 1) != nil ==> result1 == lastresult("getVariableValue", 1)
 //@   at return: assert result1 == nil || (calls("getVariableValue") > 0 && result1 == lastresult("getVariableValue", 1))
 
+//@ extern func encoding/json::Marshal
+//@   assigns nothing
+//@ extern func github.com/graphql-go/graphql/language/printer::Print
+//@   assigns nothing
+//@ extern func github.com/graphql-go/graphql/gqlerrors::NewError
+//@   assigns nothing
+//@   ensures result != nil
 //@ func getVariableValue
 //@   props C05
 //@   nosafety
+//@   assigns nothing
 //@   requires definitionAST != nil && definitionAST.Variable != nil && definitionAST.Variable.Name != nil
 //@   at call typeFromAST: assert arg0 == schema && arg1 == definitionAST.Type
 //@   at call isValidInputValue: assert arg0 == input && arg1 == lastresult("typeFromAST") && lastresult("typeFromAST", 1) == nil
